@@ -361,7 +361,7 @@ fn run(input: &Value) -> CaseOut {
     let mut w = WORKER.with(|c| c.borrow_mut().take()).unwrap_or_else(spawn_worker);
     let sent = writeln!(w.stdin, "{}", input).and_then(|_| w.stdin.flush()).is_ok();
     let deadline = std::time::Instant::now() + std::time::Duration::from_secs(
-        std::env::var("C26_CASE_TIMEOUT").ok().and_then(|s| s.parse().ok()).unwrap_or(40));
+        std::env::var("C26_CASE_TIMEOUT").ok().and_then(|s| s.parse().ok()).unwrap_or(20));
     let mut lines: Vec<Value> = Vec::new();
     let mut ended = false;
     let mut aborted = "crashed";
